@@ -85,6 +85,14 @@ func (m c10mux) MandatoryProbes() []string {
 	return append(m.coin.MandatoryProbes(), "ibc_conservation_checked", "ibc_packet_received_and_converted", "ibc_refund_after_timeout", "ibc_refund_after_error_ack", "ibc_quiescence_reached")
 }
 
+// Components: what ran real code and what was a stub (evidence file).
+func (c10mux) Components() map[string]any {
+	return map[string]any{
+		"real": []string{"app.Haqq (BaseApp, all keepers, ante chains, EVM, erc20 hooks and IBC middleware, transfer wrapper)", "rootmulti+IAVL store over SimDB (single-chain runs) / MemDB (two-chain runs)", "tx encoding and signing", "two-chain runs: two app.Haqq instances, ibc-go core + 07-tendermint light clients verifying signed headers and ICS-23 proofs, ICS-20 transfer module", "compiled token artefacts of the repository (honest, delayed-malicious, direct-balance-manipulation)"},
+		"stub": []string{"CometBFT consensus/p2p/mempool (scheduler builds blocks and calls ABCI; two-chain runs: ibc-go's testing chain signs headers with one validator key)", "clients and governance (seeded actors; pair registration/toggles in two-chain runs call the keeper at a block boundary)", "the relayer (the simulator decides what is delivered, when, how often)"},
+	}
+}
+
 func (m c10mux) Setup(w *e.World) error {
 	if !isIBC(w.Cfg) {
 		return m.coin.Setup(w)
